@@ -1141,4 +1141,17 @@ theorem tie_coplanar_and_orthogonality (posA : V3) (oriA : Ori) (posB : V3) (ori
 example : areCoplanarSrc exPlane.pos exPlane.o exPlaneB.pos exPlaneB.o = .ok true ∧
     areCoplanarSrc ⟨0, 0, 5⟩ ⟨⟨1, 0, 0⟩, ⟨0, 1, 0⟩⟩ ⟨0, 0, -5⟩ ⟨⟨1, 0, 0⟩, ⟨0, 1, 0⟩⟩ = .ok false := by decide +kernel
 
+
+/-- `_transform_affine_to_convention`: the flip flags run over the SOURCE convention and mark the letters absent from the target; the
+permutation has one entry per TARGET letter, looked up (itself or its opposite) in the source; `_transform_affine_matrix` gets exactly
+`flip_reference` and `permute_reference` and negates rows before permuting them - all regenerated (TC10g: `Gen.conventionFlipRule`,
+`Gen.conventionPermuteRule`, `Gen.affineTransformOrder`).  The repaired defect C10-convention-permutation was a flip rule running over
+the target convention: it now breaks this bridge. -/
+theorem tie_convention_plan (fromC toC : List Char) :
+    conventionPlan fromC toC = conventionPlanSrc fromC toC ∧
+    Gen.affineTransformOrder.idxOf "flip_reference" < Gen.affineTransformOrder.idxOf "permute_reference" :=
+  ⟨conventionPlan_uses_source fromC toC, transformOrder_flip_before_permute.1⟩
+
+example : conventionPlanSrc ['L', 'P', 'H'] ['F', 'L', 'P'] = .ok ([false, false, true], [2, 0, 1]) := by decide
+
 end HdVerif.C10
